@@ -72,7 +72,7 @@ class SymEnum:
 
     def _pv_generic(self, ex):
         idx = ex.ctx.ghost.get("loop_index")
-        if idx is None:
+        if idx is None or not is_z3(idx):
             idx = ex.ctx.fresh("loop_i", "int")
             ex.ctx.ghost["loop_index"] = idx
         lst = self.lst
